@@ -112,24 +112,33 @@ def fromSymbolsAndNonzeroFixedPoint (B P : Nat) (syms : List Sym) (probs : List 
       | some _ => .ok none
       | none => .ok (some { tbl := tbl, cdf := cdf })
 
-/-- loop of `from_symbol_table` -/
-def fromTableLoop (B : Nat) : List (Sym × Nat × Nat) → List (Nat × Sym) → Array Nat →
+/-- loop of `from_symbol_table`; `dbg` = debug assertions enabled (the `verif` profile) -/
+def fromTableLoop (B : Nat) (dbg : Bool) : List (Sym × Nat × Nat) → List (Nat × Sym) → Array Nat →
     M (List (Nat × Sym) × Array Nat)
   | [], cdf, tbl => .ok (cdf, tbl)
   | (s, left, p) :: rest, cdf, tbl =>
     let index := narrow B cdf.length
     -- `debug_assert_eq!(left_sided_cumulative, lookup_table.len().as_())`
-    if left ≠ narrow B tbl.size then .error (.panic "nclookup.from_symbol_table.debug_assert") else
-    fromTableLoop B rest (cdf ++ [(narrow B tbl.size, s)]) (vecResize tbl (tbl.size + p) index)
+    if dbg = true ∧ left ≠ narrow B tbl.size then
+      .error (.panic "nclookup.from_symbol_table.debug_assert")
+    else
+      fromTableLoop B dbg rest (cdf ++ [(narrow B tbl.size, s)]) (vecResize tbl (tbl.size + p) index)
 
-/-- `from_symbol_table(symbol_table)` = `from_iterable_entropy_model` given the table -/
-def fromTable (B P : Nat) (t : List (Sym × Nat × Nat)) : M (NcLookup Sym) :=
-  match fromTableLoop B t [] #[] with
+/-- `from_symbol_table(symbol_table)` = `from_iterable_entropy_model` given the table (after
+    the D31 repair: the probabilities have to add up to `1 << PRECISION`, else a clean panic) -/
+def fromTableWith (B P : Nat) (dbg : Bool) (t : List (Sym × Nat × Nat)) : M (NcLookup Sym) :=
+  match fromTableLoop B dbg t [] #[] with
   | .error f => .error f
   | .ok (cdf, tbl) =>
     match cdf.getLast? with
     | none => .error (.panic "nclookup.from_symbol_table.cdf_is_not_empty")
-    | some (_, last) => .ok { tbl := tbl, cdf := cdf ++ [(wrappingPow2 B P, last)] }
+    | some (_, last) =>
+      -- `assert_eq!(lookup_table.len(), 1usize << PRECISION)`
+      if tbl.size ≠ 2 ^ P then .error (.panic "nclookup.from_symbol_table.assert_len")
+      else .ok { tbl := tbl, cdf := cdf ++ [(wrappingPow2 B P, last)] }
+
+/-- the `verif` (checked) build, which is what the correspondence harness runs -/
+def fromTable (B P : Nat) (t : List (Sym × Nat × Nat)) : M (NcLookup Sym) := fromTableWith B P true t
 
 /-- loop of `from_symbols_and_floating_point_probabilities_fast` after the D13 repair -/
 def fastLoop (B : Nat) (left : Nat) : List Nat → List Sym → List (Sym × Nat × Nat) →
